@@ -141,3 +141,528 @@ Theorem section_ignored_N_frame : forall o p f h hs st s w data mode,
 Proof. exact Proofs_DriverMore.section_ignored_N_frame. Qed.
 Print Assumptions section_ignored_N_frame.
 
+
+(* ===== merged from Properties_DriverBatch.v ===== *)
+From PatchV Require Import Base Lines Hunk Locator Formatter Options Applier LineParser Parser World Driver
+     Spec_Locate Spec_Apply Spec_Names Proofs_Names Proofs_Apply Proofs_Conf Proofs_Reverse Proofs_Reapply Proofs_DriverMore
+     Proofs_Unified Proofs_Filler Proofs_Sections Proofs_Whole Proofs_DriverBatch.
+
+(* ================= (0) apply level ================= *)
+(* reapply_reversed with the two fields the driver needs as well: the reversed run counts as perfect (so that
+   --backup-if-mismatch asks for no backup), and its only message is the announcement *)
+Theorem apply_reversed_total : forall o p A B h hs,
+  define_macro o = [] -> verbose o = false -> force o = false -> ignore_reversed o = false -> batch o = true ->
+  (0 <= max_fuzz o)%Z ->
+  hunks (effective o p) = h :: hs ->
+  Conforming A B (hunks (effective o p)) -> (Z.of_nat (length B) < MAXZ)%Z ->
+  creation_guard (reverse_patch (effective o p)) B ->
+  loc_perfect (first_loc o (effective o p) B h) = false ->
+  exists r, apply_patch o B p = Ok r /\ r_out r = A /\ r_failed r = 0 /\ r_rej r = [] /\ r_skipped r = false /\
+            r_perfect r = true /\ r_msgs r = assuming_msg o /\
+            exists hs', r_patch r = set_hunks (reverse_patch (effective o p)) hs'.
+Proof. exact Proofs_DriverBatch.apply_reversed_total. Qed.
+Print Assumptions apply_reversed_total.
+
+(* ================= (1) the section under -t ================= *)
+(* One section (record p: not git, Change -- or Add / Delete as the header scan says for diff -U0 hunks at the top --, both
+   names the file f of the working directory, no Prereq, no mode line) whose hunks are a conforming diff of A to B, run with
+   -t (batch_options: file chosen from the patch, no -o, no --dry-run, no -D, not --verbose, -F >= 0, no -R, no -f, no -N)
+   and without -b, on a regular readable and writable f that holds B (as lines), when the first hunk no longer fits B exactly
+   at its place: the section ends normally and performs exactly three operations: open f, write the original bytes to f,
+   chmod f to the mode it had.  The state afterwards is the state before with the announcement appended to the report:
+   failure flag untouched (exit status contribution 0), no backup recorded, nothing deferred.  No reject file, no backup
+   file: this does not depend on --backup-if-mismatch (on by default), because the reversed hunks fit exactly. *)
+Theorem section_reapplied_t : forall o p f A B h hs st s w data mode,
+  batch_options o -> save_backup o = false ->
+  pfmt p <> FGit -> (poper p = OpChange \/ poper p = OpAdd \/ poper p = OpDelete) -> prereq p = [] ->
+  old_path p = f -> new_path p = f -> old_mode p = 0%N ->
+  f <> Driver.devnull -> f <> [] -> ~ In 47%N f ->
+  hunks p = h :: hs -> Conforming A B (h :: hs) -> (Z.of_nat (length B) < MAXZ)%Z ->
+  first_misfits o B h ->
+  (remove_empty_files o <> OBYes \/ lines_bytes (newline_output o) A <> []) ->
+  fault w = None -> deferred_writes st = [] ->
+  lookup (fs w) f = Some (Reg data mode) -> (mode < 4096)%N -> owner_r mode = true -> owner_w mode = true ->
+  split_lines data = B ->
+  let bytes := lines_bytes (newline_output o) A in
+  process_section o st false p s w =
+  (Ok (add_event st (assuming_msg o), s),
+   mkWorld (upd (upd (fs w) f (Reg bytes mode)) f (Reg bytes mode)) (umask w)
+           (trace w ++ [OOpenRead f; OWrite f bytes; OChmod f mode]) None (stdout_data w)).
+Proof. exact Proofs_DriverBatch.section_reapplied_t. Qed.
+Print Assumptions section_reapplied_t.
+
+(* the same in the words of the claim *)
+Theorem section_reapplied_t_frame : forall o p f A B h hs st s w data mode,
+  batch_options o -> save_backup o = false ->
+  pfmt p <> FGit -> (poper p = OpChange \/ poper p = OpAdd \/ poper p = OpDelete) -> prereq p = [] ->
+  old_path p = f -> new_path p = f -> old_mode p = 0%N ->
+  f <> Driver.devnull -> f <> [] -> ~ In 47%N f ->
+  hunks p = h :: hs -> Conforming A B (h :: hs) -> (Z.of_nat (length B) < MAXZ)%Z ->
+  first_misfits o B h ->
+  (remove_empty_files o <> OBYes \/ lines_bytes (newline_output o) A <> []) ->
+  fault w = None -> deferred_writes st = [] ->
+  lookup (fs w) f = Some (Reg data mode) -> (mode < 4096)%N -> owner_r mode = true -> owner_w mode = true ->
+  split_lines data = B ->
+  exists st' w',
+    process_section o st false p s w = (Ok (st', s), w') /\
+    lookup (fs w') f = Some (Reg (lines_bytes (newline_output o) A) mode) /\
+    (forall q, q <> f -> lookup (fs w') q = lookup (fs w) q) /\
+    lookup (fs w') (f ++ bs ".rej") = lookup (fs w) (f ++ bs ".rej") /\
+    lookup (fs w') (backup_name o f) = lookup (fs w) (backup_name o f) /\
+    trace w' = trace w ++ [OOpenRead f; OWrite f (lines_bytes (newline_output o) A); OChmod f mode] /\
+    had_failure st' = had_failure st /\ backed_up st' = backed_up st /\ deferred_writes st' = [] /\
+    deferred_removals st' = deferred_removals st /\
+    events st' = events st ++ assuming_msg o /\
+    fault w' = None /\ umask w' = umask w /\ stdout_data w' = stdout_data w.
+Proof. exact Proofs_DriverBatch.section_reapplied_t_frame. Qed.
+Print Assumptions section_reapplied_t_frame.
+
+(* byte for byte: f holds dataB; the patch is a diff of dataA to dataB; terminators survive the writing
+   (--newline-output=preserve, or any mode but crlf when dataA has no CR LF line end): f holds dataA afterwards *)
+Theorem section_reapplied_t_bytes : forall o p f dataA dataB h hs st s w mode,
+  batch_options o -> save_backup o = false ->
+  pfmt p <> FGit -> (poper p = OpChange \/ poper p = OpAdd \/ poper p = OpDelete) -> prereq p = [] ->
+  old_path p = f -> new_path p = f -> old_mode p = 0%N ->
+  f <> Driver.devnull -> f <> [] -> ~ In 47%N f ->
+  hunks p = h :: hs -> Conforming (split_lines dataA) (split_lines dataB) (h :: hs) ->
+  (Z.of_nat (length (split_lines dataB)) < MAXZ)%Z ->
+  first_misfits o (split_lines dataB) h ->
+  (newline_output o = MKeep \/ newline_output o <> MCRLF /\ no_crlf (split_lines dataA)) ->
+  (remove_empty_files o <> OBYes \/ dataA <> []) ->
+  fault w = None -> deferred_writes st = [] ->
+  lookup (fs w) f = Some (Reg dataB mode) -> (mode < 4096)%N -> owner_r mode = true -> owner_w mode = true ->
+  process_section o st false p s w =
+  (Ok (add_event st (assuming_msg o), s),
+   mkWorld (upd (upd (fs w) f (Reg dataA mode)) f (Reg dataA mode)) (umask w)
+           (trace w ++ [OOpenRead f; OWrite f dataA; OChmod f mode]) None (stdout_data w)).
+Proof. exact Proofs_DriverBatch.section_reapplied_t_bytes. Qed.
+Print Assumptions section_reapplied_t_bytes.
+
+(* with -b: the one case in which a backup is taken (none taken for f yet in this run, nothing at the backup name): f, as
+   it is, goes to the backup name, and comes into being again with the original bytes and the mode it had *)
+Theorem section_reapplied_t_backup : forall o p f A B h hs st s w data mode,
+  batch_options o -> save_backup o = true ->
+  pfmt p <> FGit -> (poper p = OpChange \/ poper p = OpAdd \/ poper p = OpDelete) -> prereq p = [] ->
+  old_path p = f -> new_path p = f -> old_mode p = 0%N ->
+  f <> Driver.devnull -> f <> [] -> ~ In 47%N f -> ~ In 47%N (backup_name o f) ->
+  hunks p = h :: hs -> Conforming A B (h :: hs) -> (Z.of_nat (length B) < MAXZ)%Z ->
+  first_misfits o B h ->
+  (remove_empty_files o <> OBYes \/ lines_bytes (newline_output o) A <> []) ->
+  fault w = None -> deferred_writes st = [] ->
+  existsb (str_eqb (backup_name o f)) (backed_up st) = false ->
+  lookup (fs w) f = Some (Reg data mode) -> (mode < 4096)%N -> owner_r mode = true -> owner_w mode = true ->
+  lookup (fs w) (backup_name o f) = None ->
+  split_lines data = B ->
+  exists w',
+    process_section o st false p s w = (Ok (with_backed_up (add_event st (assuming_msg o)) (backup_name o f), s), w') /\
+    lookup (fs w') (backup_name o f) = Some (Reg data mode) /\
+    lookup (fs w') f = Some (Reg (lines_bytes (newline_output o) A) mode) /\
+    (forall q, q <> f -> q <> backup_name o f -> lookup (fs w') q = lookup (fs w) q) /\
+    fault w' = None /\ umask w' = umask w.
+Proof. exact Proofs_DriverBatch.section_reapplied_t_backup. Qed.
+Print Assumptions section_reapplied_t_backup.
+
+(* ================= (2) the run ================= *)
+(* the patch that made B out of A looks reversed on B as soon as its first hunk no longer fits B exactly at its place *)
+Theorem conforming_looks_reversed : forall o A B h hs,
+  Conforming A B (h :: hs) -> (Z.of_nat (length B) < MAXZ)%Z -> (0 <= max_fuzz o)%Z ->
+  first_misfits o B h -> looks_reversed_lines o B h.
+Proof. exact Proofs_DriverBatch.conforming_looks_reversed. Qed.
+Print Assumptions conforming_looks_reversed.
+
+(* process_patch on the text of a unified patch (lines that mean nothing to the header scan, "--- old", "+++ new" with or
+   without stamps, the hunks as the formatter writes them, then nothing or text that holds no further patch) whose hunks are
+   a conforming diff of A to B and whose names, with the components -p removes, are the file fname of the working directory
+   which holds B: under -t (without -b) exit status 0, the report is the announcement, the world is the world before with A
+   in fname and three more operations *)
+Theorem process_patch_reapplied_t : forall o f0 fl oldname t1 newname t2 h1 hs tail fname A B w data mode,
+  batch_options o -> save_backup o = false ->
+  format_from_options o = Ok f0 -> f0 = FUnknown \/ f0 = FUnified ->
+  Forall (Filler (strip_size o) (empty_patch f0)) fl -> Forall clean fl ->
+  plain_name oldname -> plain_name newname -> clean (oldname ++ tab_time t1) -> clean (newname ++ tab_time t2) ->
+  stripped oldname (strip_size o) = fname -> stripped newname (strip_size o) = fname ->
+  fname <> [] /\ ~ In 47%N fname ->
+  Forall wf_hunk (h1 :: hs) -> Conforming A B (h1 :: hs) -> (Z.of_nat (length B) < MAXZ)%Z ->
+  first_misfits o B h1 ->
+  remove_empty_files o <> OBYes \/ lines_bytes (newline_output o) A <> [] ->
+  tail_ok tail -> ends_here o f0 (after tail) = true ->
+  fault w = None -> lookup (fs w) fname = Some (Reg data mode) -> (mode < 4096)%N -> owner_r mode = true -> owner_w mode = true ->
+  split_lines data = B ->
+  let bytes := lines_bytes (newline_output o) A in
+  process_patch o (unified_text fl oldname t1 newname t2 (h1 :: hs) tail) w =
+  (Ok (0, assuming_msg o),
+   mkWorld (upd (upd (fs w) fname (Reg bytes mode)) fname (Reg bytes mode)) (umask w)
+           (trace w ++ [OOpenRead fname; OWrite fname bytes; OChmod fname mode]) None (stdout_data w)).
+Proof. exact Proofs_DriverBatch.process_patch_reapplied_t. Qed.
+Print Assumptions process_patch_reapplied_t.
+
+(* under -N (ignoring_options of Proofs_DriverMore, no -R, rejects not forced to context format), the decision stated on the
+   lines of the file: exit status 1, the report is the announcement and "n out of n hunks ignored", fname is not written,
+   fname.rej is created with the two header lines and all hunks as they stand in the patch *)
+Theorem process_patch_ignored_N : forall o f0 fl oldname t1 newname t2 h1 hs tail fname w data mode,
+  ignoring_options o -> reverse_patch_opt o = false -> reject_format_opt o <> RFContext ->
+  format_from_options o = Ok f0 -> f0 = FUnknown \/ f0 = FUnified ->
+  Forall (Filler (strip_size o) (empty_patch f0)) fl -> Forall clean fl ->
+  plain_name oldname -> plain_name newname -> clean (oldname ++ tab_time t1) -> clean (newname ++ tab_time t2) ->
+  stripped oldname (strip_size o) = fname -> stripped newname (strip_size o) = fname ->
+  fname <> [] /\ ~ In 47%N fname ->
+  Forall wf_hunk (h1 :: hs) ->
+  looks_reversed_lines o (split_lines data) h1 ->
+  tail_ok tail -> ends_here o f0 (after tail) = true ->
+  fault w = None -> lookup (fs w) fname = Some (Reg data mode) -> (mode < 4096)%N -> owner_r mode = true ->
+  (N.land mode write_mask <> 0%N \/ read_only o <> ROFail) ->
+  lookup (fs w) (fname ++ bs ".rej") = None ->
+  let rej := unified_rejects fname t1 t2 (h1 :: hs) in
+  let n := S (length hs) in
+  process_patch o (unified_text fl oldname t1 newname t2 (h1 :: hs) tail) w =
+  (Ok (1, skipping_msg o ++ inform_hunks_failed (bs "ignored") n n ++ [10%N]),
+   mkWorld (upd (fs w) (fname ++ bs ".rej") (Reg rej (created_mode (umask w)))) (umask w)
+           (trace w ++ [OOpenRead fname; OWrite (fname ++ bs ".rej") rej]) None (stdout_data w)).
+Proof. exact Proofs_DriverBatch.process_patch_ignored_N. Qed.
+Print Assumptions process_patch_ignored_N.
+
+(* ... for the patch that made B out of A: the same hypotheses as under -t *)
+Theorem process_patch_reapplied_N : forall o f0 fl oldname t1 newname t2 h1 hs tail fname A B w data mode,
+  ignoring_options o -> reverse_patch_opt o = false -> reject_format_opt o <> RFContext -> (0 <= max_fuzz o)%Z ->
+  format_from_options o = Ok f0 -> f0 = FUnknown \/ f0 = FUnified ->
+  Forall (Filler (strip_size o) (empty_patch f0)) fl -> Forall clean fl ->
+  plain_name oldname -> plain_name newname -> clean (oldname ++ tab_time t1) -> clean (newname ++ tab_time t2) ->
+  stripped oldname (strip_size o) = fname -> stripped newname (strip_size o) = fname ->
+  fname <> [] /\ ~ In 47%N fname ->
+  Forall wf_hunk (h1 :: hs) -> Conforming A B (h1 :: hs) -> (Z.of_nat (length B) < MAXZ)%Z ->
+  first_misfits o B h1 ->
+  tail_ok tail -> ends_here o f0 (after tail) = true ->
+  fault w = None -> lookup (fs w) fname = Some (Reg data mode) -> (mode < 4096)%N -> owner_r mode = true ->
+  (N.land mode write_mask <> 0%N \/ read_only o <> ROFail) ->
+  lookup (fs w) (fname ++ bs ".rej") = None ->
+  split_lines data = B ->
+  let rej := unified_rejects fname t1 t2 (h1 :: hs) in
+  let n := S (length hs) in
+  process_patch o (unified_text fl oldname t1 newname t2 (h1 :: hs) tail) w =
+  (Ok (1, skipping_msg o ++ inform_hunks_failed (bs "ignored") n n ++ [10%N]),
+   mkWorld (upd (fs w) (fname ++ bs ".rej") (Reg rej (created_mode (umask w)))) (umask w)
+           (trace w ++ [OOpenRead fname; OWrite (fname ++ bs ".rej") rej]) None (stdout_data w)).
+Proof. exact Proofs_DriverBatch.process_patch_reapplied_N. Qed.
+Print Assumptions process_patch_reapplied_N.
+
+(* the whole program, patch on standard input (no -i, or -i -) *)
+Theorem run_patch_reapplied_t : forall o f0 fl oldname t1 newname t2 h1 hs tail fname A B w data mode,
+  (patch_file_path o = [] \/ patch_file_path o = bs "-") ->
+  batch_options o -> save_backup o = false ->
+  format_from_options o = Ok f0 -> f0 = FUnknown \/ f0 = FUnified ->
+  Forall (Filler (strip_size o) (empty_patch f0)) fl -> Forall clean fl ->
+  plain_name oldname -> plain_name newname -> clean (oldname ++ tab_time t1) -> clean (newname ++ tab_time t2) ->
+  stripped oldname (strip_size o) = fname -> stripped newname (strip_size o) = fname ->
+  fname <> [] /\ ~ In 47%N fname ->
+  Forall wf_hunk (h1 :: hs) -> Conforming A B (h1 :: hs) -> (Z.of_nat (length B) < MAXZ)%Z ->
+  first_misfits o B h1 ->
+  remove_empty_files o <> OBYes \/ lines_bytes (newline_output o) A <> [] ->
+  tail_ok tail -> ends_here o f0 (after tail) = true ->
+  fault w = None -> lookup (fs w) fname = Some (Reg data mode) -> (mode < 4096)%N -> owner_r mode = true -> owner_w mode = true ->
+  split_lines data = B ->
+  let bytes := lines_bytes (newline_output o) A in
+  run_patch o (unified_text fl oldname t1 newname t2 (h1 :: hs) tail) w =
+  mkRR 0 (assuming_msg o)
+       (mkWorld (upd (upd (fs w) fname (Reg bytes mode)) fname (Reg bytes mode)) (umask w)
+                (trace w ++ [OOpenRead fname; OWrite fname bytes; OChmod fname mode]) None (stdout_data w)).
+Proof. exact Proofs_DriverBatch.run_patch_reapplied_t. Qed.
+Print Assumptions run_patch_reapplied_t.
+
+(* ... and patch in a readable file of the working directory named with -i *)
+Theorem run_patch_file_reapplied_t : forall o f0 fl oldname t1 newname t2 h1 hs tail fname A B w data mode pf pm stdin,
+  patch_file_path o = pf -> pf <> [] -> pf <> bs "-" -> ~ In 47%N pf ->
+  lookup (fs w) pf = Some (Reg (unified_text fl oldname t1 newname t2 (h1 :: hs) tail) pm) -> owner_r pm = true ->
+  batch_options o -> save_backup o = false ->
+  format_from_options o = Ok f0 -> f0 = FUnknown \/ f0 = FUnified ->
+  Forall (Filler (strip_size o) (empty_patch f0)) fl -> Forall clean fl ->
+  plain_name oldname -> plain_name newname -> clean (oldname ++ tab_time t1) -> clean (newname ++ tab_time t2) ->
+  stripped oldname (strip_size o) = fname -> stripped newname (strip_size o) = fname ->
+  fname <> [] /\ ~ In 47%N fname ->
+  Forall wf_hunk (h1 :: hs) -> Conforming A B (h1 :: hs) -> (Z.of_nat (length B) < MAXZ)%Z ->
+  first_misfits o B h1 ->
+  remove_empty_files o <> OBYes \/ lines_bytes (newline_output o) A <> [] ->
+  tail_ok tail -> ends_here o f0 (after tail) = true ->
+  fault w = None -> lookup (fs w) fname = Some (Reg data mode) -> (mode < 4096)%N -> owner_r mode = true -> owner_w mode = true ->
+  split_lines data = B ->
+  let bytes := lines_bytes (newline_output o) A in
+  run_patch o stdin w =
+  mkRR 0 (assuming_msg o)
+       (mkWorld (upd (upd (fs w) fname (Reg bytes mode)) fname (Reg bytes mode)) (umask w)
+                (trace w ++ [OOpenRead pf; OOpenRead fname; OWrite fname bytes; OChmod fname mode]) None (stdout_data w)).
+Proof. exact Proofs_DriverBatch.run_patch_file_reapplied_t. Qed.
+Print Assumptions run_patch_file_reapplied_t.
+
+Theorem run_patch_reapplied_N : forall o f0 fl oldname t1 newname t2 h1 hs tail fname A B w data mode,
+  (patch_file_path o = [] \/ patch_file_path o = bs "-") ->
+  ignoring_options o -> reverse_patch_opt o = false -> reject_format_opt o <> RFContext -> (0 <= max_fuzz o)%Z ->
+  format_from_options o = Ok f0 -> f0 = FUnknown \/ f0 = FUnified ->
+  Forall (Filler (strip_size o) (empty_patch f0)) fl -> Forall clean fl ->
+  plain_name oldname -> plain_name newname -> clean (oldname ++ tab_time t1) -> clean (newname ++ tab_time t2) ->
+  stripped oldname (strip_size o) = fname -> stripped newname (strip_size o) = fname ->
+  fname <> [] /\ ~ In 47%N fname ->
+  Forall wf_hunk (h1 :: hs) -> Conforming A B (h1 :: hs) -> (Z.of_nat (length B) < MAXZ)%Z ->
+  first_misfits o B h1 ->
+  tail_ok tail -> ends_here o f0 (after tail) = true ->
+  fault w = None -> lookup (fs w) fname = Some (Reg data mode) -> (mode < 4096)%N -> owner_r mode = true ->
+  (N.land mode write_mask <> 0%N \/ read_only o <> ROFail) ->
+  lookup (fs w) (fname ++ bs ".rej") = None ->
+  split_lines data = B ->
+  let rej := unified_rejects fname t1 t2 (h1 :: hs) in
+  let n := S (length hs) in
+  run_patch o (unified_text fl oldname t1 newname t2 (h1 :: hs) tail) w =
+  mkRR 1 (skipping_msg o ++ inform_hunks_failed (bs "ignored") n n ++ [10%N])
+       (mkWorld (upd (fs w) (fname ++ bs ".rej") (Reg rej (created_mode (umask w)))) (umask w)
+                (trace w ++ [OOpenRead fname; OWrite (fname ++ bs ".rej") rej]) None (stdout_data w)).
+Proof. exact Proofs_DriverBatch.run_patch_reapplied_N. Qed.
+Print Assumptions run_patch_reapplied_N.
+
+Theorem run_patch_file_reapplied_N : forall o f0 fl oldname t1 newname t2 h1 hs tail fname A B w data mode pf pm stdin,
+  patch_file_path o = pf -> pf <> [] -> pf <> bs "-" -> ~ In 47%N pf ->
+  lookup (fs w) pf = Some (Reg (unified_text fl oldname t1 newname t2 (h1 :: hs) tail) pm) -> owner_r pm = true ->
+  ignoring_options o -> reverse_patch_opt o = false -> reject_format_opt o <> RFContext -> (0 <= max_fuzz o)%Z ->
+  format_from_options o = Ok f0 -> f0 = FUnknown \/ f0 = FUnified ->
+  Forall (Filler (strip_size o) (empty_patch f0)) fl -> Forall clean fl ->
+  plain_name oldname -> plain_name newname -> clean (oldname ++ tab_time t1) -> clean (newname ++ tab_time t2) ->
+  stripped oldname (strip_size o) = fname -> stripped newname (strip_size o) = fname ->
+  fname <> [] /\ ~ In 47%N fname ->
+  Forall wf_hunk (h1 :: hs) -> Conforming A B (h1 :: hs) -> (Z.of_nat (length B) < MAXZ)%Z ->
+  first_misfits o B h1 ->
+  tail_ok tail -> ends_here o f0 (after tail) = true ->
+  fault w = None -> lookup (fs w) fname = Some (Reg data mode) -> (mode < 4096)%N -> owner_r mode = true ->
+  (N.land mode write_mask <> 0%N \/ read_only o <> ROFail) ->
+  lookup (fs w) (fname ++ bs ".rej") = None ->
+  split_lines data = B ->
+  let rej := unified_rejects fname t1 t2 (h1 :: hs) in
+  let n := S (length hs) in
+  run_patch o stdin w =
+  mkRR 1 (skipping_msg o ++ inform_hunks_failed (bs "ignored") n n ++ [10%N])
+       (mkWorld (upd (fs w) (fname ++ bs ".rej") (Reg rej (created_mode (umask w)))) (umask w)
+                (trace w ++ [OOpenRead pf; OOpenRead fname; OWrite (fname ++ bs ".rej") rej]) None (stdout_data w)).
+Proof. exact Proofs_DriverBatch.run_patch_file_reapplied_N. Qed.
+Print Assumptions run_patch_file_reapplied_N.
+
+(* ================= (3) -f ================= *)
+(* apply_patch with -f is the plain loop: every hunk placed by the locator alone (Proofs_Apply.apply_patch_verdicts says
+   what that means hunk by hunk), applied or rejected *)
+Theorem apply_patch_force : forall o lines p, force o = true -> apply_patch o lines p = apply_patch_plain o lines p.
+Proof. exact Proofs_DriverBatch.apply_patch_force. Qed.
+Print Assumptions apply_patch_force.
+
+(* process_section_with is Driver.process_section with the applier as a parameter *)
+Theorem process_section_with_apply : forall o st should p s,
+  process_section o st should p s = process_section_with (apply_patch o) o st should p s.
+Proof. exact Proofs_DriverBatch.process_section_with_apply. Qed.
+Print Assumptions process_section_with_apply.
+
+(* with -f the section, in any world and any state, whatever -N and -t say, is the section run with the plain loop *)
+Theorem section_force_no_guess : forall o st should p s w,
+  force o = true ->
+  process_section o st should p s w = process_section_with (apply_patch_plain o) o st should p s w.
+Proof. exact Proofs_DriverBatch.section_force_no_guess. Qed.
+Print Assumptions section_force_no_guess.
+
+(* everything apply_patch says under -f is hunk reports: no announcement of a reversed patch *)
+Theorem force_messages : forall o lines p r, force o = true -> apply_patch o lines p = Ok r -> stats_only (r_msgs r).
+Proof. exact Proofs_DriverBatch.force_messages. Qed.
+Print Assumptions force_messages.
+
+Theorem stats_only_head : forall m, stats_only m -> m = [] \/ starts_with m (bs "Hunk #") = true.
+Proof. exact Proofs_DriverBatch.stats_only_head. Qed.
+Print Assumptions stats_only_head.
+
+(* ---------- non-vacuity: A = a,b,c ; B = a,B,c ; all hypotheses discharged, and the runs cross-checked by computation ---------- *)
+Local Open Scope string_scope.
+Definition db_nl : list N := [10%N].
+Definition db_l (s : String.string) := mkLine (bs s) LF.
+(* b = -b, n = -N, t = -t, f = -f, bim = --backup-if-mismatch; the patch is read from p.diff (-i p.diff) *)
+Definition db_o (b n t f : bool) (bim : optional_bool) :=
+  mkOptions b false [] [] false (bs "p.diff") false false n [] (-1) 2 false [] [] f t false false false false false false
+            bim OBUnset MNative RFDefault ROWarn QSUnset [] [].
+Definition db_A := [db_l "a"; db_l "b"; db_l "c"].
+Definition db_B := [db_l "a"; db_l "B"; db_l "c"].
+Definition db_dataA := bs "a" ++ db_nl ++ bs "b" ++ db_nl ++ bs "c" ++ db_nl.
+Definition db_dataB := bs "a" ++ db_nl ++ bs "B" ++ db_nl ++ bs "c" ++ db_nl.
+Definition db_h := mkHunk (mkRange 1 3) (mkRange 1 3)
+  [mkPL Ctx (db_l "a"); mkPL Del (db_l "b"); mkPL Add (db_l "B"); mkPL Ctx (db_l "c")].
+Definition db_p := mkPatch FUnified OpChange [] [] (bs "f") (bs "f") [] [] 0 0 [db_h].
+(* the output of diff -u a/f b/f (time stamps left out) *)
+Definition db_text := bs "diff -u a/f b/f" ++ db_nl ++ bs "--- a/f" ++ db_nl ++ bs "+++ b/f" ++ db_nl ++ bs "@@ -1,3 +1,3 @@" ++ db_nl
+  ++ bs " a" ++ db_nl ++ bs "-b" ++ db_nl ++ bs "+B" ++ db_nl ++ bs " c" ++ db_nl.
+Definition db_rej := bs "--- f" ++ db_nl ++ bs "+++ f" ++ db_nl ++ bs "@@ -1,3 +1,3 @@" ++ db_nl
+  ++ bs " a" ++ db_nl ++ bs "-b" ++ db_nl ++ bs "+B" ++ db_nl ++ bs " c" ++ db_nl.
+Definition db_other : list N * node := (bs "other", Reg (bs "x") 256).
+Definition db_pfile : list N * node := (bs "p.diff", Reg db_text 420).
+Definition db_w (data : list N) := mkWorld [db_pfile; db_other; (bs "f", Reg data 384)] 18 [] None [].
+Definition db_st := mkDS false [] [] [] [].
+Definition db_s := stream_of [].
+Definition db_assuming := bs "Reversed (or previously applied) patch detected!  Assuming -R." ++ db_nl.
+Definition db_skipping := bs "Reversed (or previously applied) patch detected!  Skipping patch." ++ db_nl.
+
+Lemma db_conf : Conforming db_A db_B [db_h].
+Proof. unfold Conforming. apply (Conf_cons 0 0 [] db_h [] [] []); try reflexivity; [discriminate|constructor]. Qed.
+Lemma db_wf : wf_hunk db_h. Proof. wf_hunk_tac. Qed.
+Lemma db_batch b bim : batch_options (db_o b false true false bim).
+Proof. unfold batch_options. repeat split; try reflexivity. cbn. discriminate. Qed.
+Lemma db_ignoring b t bim : ignoring_options (db_o b true t false bim).
+Proof. unfold ignoring_options. repeat split; reflexivity. Qed.
+Lemma db_misfits b n t f bim : first_misfits (db_o b n t f bim) db_B db_h.
+Proof. vm_compute. reflexivity. Qed.
+Lemma db_text_shape : db_text = unified_text [bs "diff -u a/f b/f"] (bs "a/f") None (bs "b/f") None [db_h] [].
+Proof. vm_compute. reflexivity. Qed.
+
+Ltac db_noslash := let H := fresh "H" in vm_compute; intros H; repeat (destruct H as [H|H]; [discriminate H|]); exact H.
+Lemma db_filler b n t f bim :
+  Forall (Filler (strip_size (db_o b n t f bim)) (empty_patch FUnknown)) [bs "diff -u a/f b/f"].
+Proof. constructor; [vm_compute; reflexivity|constructor]. Qed.
+Lemma db_wfs : Forall wf_hunk [db_h].
+Proof. constructor; [exact db_wf|constructor]. Qed.
+Ltac db_side := first [ exact db_conf | exact db_wfs | apply db_filler | apply db_misfits | apply db_batch | apply db_ignoring
+                      | reflexivity | discriminate
+                      | (vm_compute; reflexivity) | (vm_compute; discriminate) | db_noslash
+                      | (left; discriminate) | (right; discriminate)
+                      | (left; vm_compute; discriminate) | (right; vm_compute; discriminate)
+                      | (left; reflexivity) | (right; vm_compute; reflexivity)
+                      | (repeat split; vm_compute; intuition discriminate)
+                      | (constructor; [repeat split; vm_compute; intuition discriminate|constructor]) ].
+
+(* (1) the section under -t, with --backup-if-mismatch given explicitly: three operations, no backup, no reject file *)
+Example section_reapplied_t_nonvacuous :
+  let o := db_o false false true false OBYes in
+  process_section o db_st false db_p db_s (db_w db_dataB) =
+  (Ok (mkDS false [] [] [] db_assuming, db_s),
+   mkWorld [(bs "f", Reg db_dataA 384); db_pfile; db_other] 18
+           [OOpenRead (bs "f"); OWrite (bs "f") db_dataA; OChmod (bs "f") 384] None []).
+Proof.
+  cbv zeta.
+  rewrite (section_reapplied_t (db_o false false true false OBYes) db_p (bs "f") db_A db_B db_h [] db_st db_s (db_w db_dataB) db_dataB 384);
+    db_side.
+Qed.
+
+(* the same by plain computation of the model *)
+Example section_reapplied_t_run :
+  let o := db_o false false true false OBYes in
+  process_section o db_st false db_p db_s (db_w db_dataB) =
+  (Ok (mkDS false [] [] [] db_assuming, db_s),
+   mkWorld [(bs "f", Reg db_dataA 384); db_pfile; db_other] 18
+           [OOpenRead (bs "f"); OWrite (bs "f") db_dataA; OChmod (bs "f") 384] None []).
+Proof. vm_compute. reflexivity. Qed.
+
+(* (1) with -b *)
+Example section_reapplied_t_backup_nonvacuous :
+  let o := db_o true false true false OBUnset in
+  exists w',
+    process_section o db_st false db_p db_s (db_w db_dataB)
+      = (Ok (with_backed_up (add_event db_st (assuming_msg o)) (backup_name o (bs "f")), db_s), w') /\
+    lookup (fs w') (backup_name o (bs "f")) = Some (Reg db_dataB 384) /\
+    lookup (fs w') (bs "f") = Some (Reg (lines_bytes (newline_output o) db_A) 384) /\
+    (forall q, q <> bs "f" -> q <> backup_name o (bs "f") -> lookup (fs w') q = lookup (fs (db_w db_dataB)) q) /\
+    fault w' = None /\ umask w' = umask (db_w db_dataB).
+Proof.
+  cbv zeta.
+  apply (section_reapplied_t_backup (db_o true false true false OBUnset) db_p (bs "f") db_A db_B db_h [] db_st db_s (db_w db_dataB) db_dataB 384);
+    db_side.
+Qed.
+
+(* (2) the whole program under -t: the theorem, instantiated ... *)
+Example run_patch_reapplied_t_nonvacuous :
+  run_patch (db_o false false true false OBYes) [] (db_w db_dataB) =
+  mkRR 0 db_assuming
+       (mkWorld [(bs "f", Reg db_dataA 384); db_pfile; db_other] 18
+                [OOpenRead (bs "p.diff"); OOpenRead (bs "f"); OWrite (bs "f") db_dataA; OChmod (bs "f") 384] None []).
+Proof.
+  rewrite (run_patch_file_reapplied_t (db_o false false true false OBYes) FUnknown [bs "diff -u a/f b/f"] (bs "a/f") None (bs "b/f") None
+             db_h [] [] (bs "f") db_A db_B (db_w db_dataB) db_dataB 384 (bs "p.diff") 420 []);
+    db_side.
+Qed.
+
+(* ... and by computation: exit status 0, original bytes, mode kept, no f.orig, no f.rej *)
+Example whole_program_reapplied_t :
+  let r := run_patch (db_o false false true false OBYes) [] (db_w db_dataB) in
+  rr_exit r = 0 /\ rr_events r = db_assuming /\
+  lookup (fs (rr_world r)) (bs "f") = Some (Reg db_dataA 384) /\
+  lookup (fs (rr_world r)) (bs "f.orig") = None /\ lookup (fs (rr_world r)) (bs "f.rej") = None /\
+  trace (rr_world r) = [OOpenRead (bs "p.diff"); OOpenRead (bs "f"); OWrite (bs "f") db_dataA; OChmod (bs "f") 384].
+Proof. vm_compute. repeat split; reflexivity. Qed.
+
+(* -t -b by computation: the backup holds the patched bytes *)
+Example whole_program_reapplied_t_backup :
+  let r := run_patch (db_o true false true false OBUnset) [] (db_w db_dataB) in
+  rr_exit r = 0 /\ rr_events r = db_assuming /\
+  lookup (fs (rr_world r)) (bs "f") = Some (Reg db_dataA 384) /\
+  lookup (fs (rr_world r)) (bs "f.orig") = Some (Reg db_dataB 384) /\ lookup (fs (rr_world r)) (bs "f.rej") = None /\
+  trace (rr_world r) = [OOpenRead (bs "p.diff"); OOpenRead (bs "f"); ORename (bs "f") (bs "f.orig");
+                        OWrite (bs "f") db_dataA; OChmod (bs "f") 384].
+Proof. vm_compute. repeat split; reflexivity. Qed.
+
+(* (2) the whole program under -N: the theorem, instantiated ... *)
+Example run_patch_reapplied_N_nonvacuous :
+  run_patch (db_o false true false false OBYes) [] (db_w db_dataB) =
+  mkRR 1 (db_skipping ++ bs "1 out of 1 hunk ignored" ++ db_nl)
+       (mkWorld [(bs "f.rej", Reg db_rej 420); db_pfile; db_other; (bs "f", Reg db_dataB 384)] 18
+                [OOpenRead (bs "p.diff"); OOpenRead (bs "f"); OWrite (bs "f.rej") db_rej] None []).
+Proof.
+  rewrite (run_patch_file_reapplied_N (db_o false true false false OBYes) FUnknown [bs "diff -u a/f b/f"] (bs "a/f") None (bs "b/f") None
+             db_h [] [] (bs "f") db_A db_B (db_w db_dataB) db_dataB 384 (bs "p.diff") 420 []);
+    db_side.
+Qed.
+
+(* ... and by computation; -N wins over -t when both are given *)
+Example whole_program_reapplied_N :
+  let r := run_patch (db_o false true false false OBYes) [] (db_w db_dataB) in
+  let r2 := run_patch (db_o false true true false OBYes) [] (db_w db_dataB) in
+  rr_exit r = 1 /\ rr_events r = db_skipping ++ bs "1 out of 1 hunk ignored" ++ db_nl /\
+  lookup (fs (rr_world r)) (bs "f") = Some (Reg db_dataB 384) /\
+  lookup (fs (rr_world r)) (bs "f.orig") = None /\ lookup (fs (rr_world r)) (bs "f.rej") = Some (Reg db_rej 420) /\
+  trace (rr_world r) = [OOpenRead (bs "p.diff"); OOpenRead (bs "f"); OWrite (bs "f.rej") db_rej] /\
+  r2 = r.
+Proof. vm_compute. repeat split; reflexivity. Qed.
+
+(* (3) -f (with -t as well): no guess; the hunk is judged on its own, does not fit (its only changed line is not there),
+   and is rejected as FAILED, not as ignored; the report holds hunk reports only.  With --backup-if-mismatch the file is then
+   written back unchanged under a backup. *)
+Example section_force_no_guess_nonvacuous :
+  let o := db_o false false true true OBUnset in
+  process_section o db_st false db_p db_s (db_w db_dataB) =
+  process_section_with (apply_patch_plain o) o db_st false db_p db_s (db_w db_dataB).
+Proof. cbv zeta. apply section_force_no_guess. reflexivity. Qed.
+
+Example whole_program_force :
+  let r := run_patch (db_o false false true true OBUnset) [] (db_w db_dataB) in
+  rr_exit r = 1 /\ rr_events r = bs "Hunk #1 FAILED at 1." ++ db_nl ++ bs "1 out of 1 hunk FAILED" ++ db_nl /\
+  lookup (fs (rr_world r)) (bs "f") = Some (Reg db_dataB 384) /\
+  lookup (fs (rr_world r)) (bs "f.rej") = Some (Reg db_rej 420) /\
+  trace (rr_world r) = [OOpenRead (bs "p.diff"); OOpenRead (bs "f"); OWrite (bs "f.rej") db_rej;
+                        OWrite (bs "f") db_dataB; OChmod (bs "f") 384].
+Proof. vm_compute. repeat split; reflexivity. Qed.
+
+(* the hypothesis first_misfits is needed: a patch whose first hunk still fits the patched file exactly at its place (here an
+   insertion at the top written by diff -U0) is not recognised; -t applies it a second time, without a word *)
+Definition db_hins := mkHunk (mkRange 0 0) (mkRange 1 1) [mkPL Add (db_l "x")].
+Example first_misfits_needed :
+  let o := db_o false false true false OBYes in
+  let p := mkPatch FUnified OpChange [] [] (bs "f") (bs "f") [] [] 0 0 [db_hins] in
+  Conforming [db_l "a"] [db_l "x"; db_l "a"] [db_hins] /\
+  ~ first_misfits o [db_l "x"; db_l "a"] db_hins /\
+  match apply_patch o [db_l "x"; db_l "a"] p with
+  | Ok r => r_out r = [db_l "x"; db_l "x"; db_l "a"] /\ r_msgs r = [] /\ r_failed r = 0
+  | Throw _ => False
+  end.
+Proof.
+  cbv zeta. split.
+  - unfold Conforming. apply (Conf_cons 0 0 [] db_hins [] [db_l "a"] [db_l "a"]); try reflexivity; [discriminate|constructor].
+  - split; [vm_compute; discriminate|vm_compute; repeat split; reflexivity].
+Qed.
+
+(* an observation on the decision itself (Applier.apply_first): the reversed first hunk is preferred as soon as it fits exactly,
+   even when the hunk as stated still fits elsewhere (with an offset).  Here the file holds B,b and the hunk replaces b by B at
+   line 1: as stated it fits at line 2; -t reverses it (result b,b), -f applies it at line 2 (result B,B) *)
+Definition db_hone := mkHunk (mkRange 1 1) (mkRange 1 1) [mkPL Del (db_l "b"); mkPL Add (db_l "B")].
+Example reversed_preferred_to_offset :
+  let p := mkPatch FUnified OpChange [] [] (bs "f") (bs "f") [] [] 0 0 [db_hone] in
+  let lines := [db_l "B"; db_l "b"] in
+  locate_hunk lines db_hone false 0 2 0 = Some (mkLoc 1 0 1) /\
+  match apply_patch (db_o false false true false OBYes) lines p with
+  | Ok r => r_out r = [db_l "b"; db_l "b"] /\ r_failed r = 0 | Throw _ => False end /\
+  match apply_patch (db_o false false true true OBYes) lines p with
+  | Ok r => r_out r = [db_l "B"; db_l "B"] /\ r_failed r = 0 | Throw _ => False end.
+Proof. vm_compute. repeat split; reflexivity. Qed.
